@@ -198,6 +198,98 @@ CHECKS = {
         'advertised in its PN; an AG with no AG indicators may refuse the SLC cleanly.',
         'DESIGN.md 3/C20',
     ),
+    'C05': (
+        'byte-exact delivery comparison + harness fragment checker on the tapped HCI stream; generated buffer geometries x PDU/SDU length sequences x malformed fragment scripts',
+        'exploration',
+        'Worlds of 2..3 real devices (LE, BR/EDR) with generated controller ACL data length (5..65535) and packet count on '
+        'every node and order-preserving HCI delays: generated sequences of Host.send_l2cap_pdu in both directions with '
+        'payload lengths biased to k*F-4+-1, 0..3 and 65531..65535; the receiver\'s l2cap_pdu events must equal what was '
+        'sent (byte-identical, once, in order) and every host->controller fragment must fit the advertised length and carry '
+        'the right PB flag. ISO: a real CIS, generated ISO buffer geometry and SDU lengths 1..4095, every ISO fragment '
+        'checked for size, PB flag, SDU length and sequence number (16-bit wrap reached). Malformed scripts (continuation '
+        'without start, start without end, data beyond the announced length, start shorter than the header) between '
+        'well-formed PDUs through a RawPeer, the bare assembler and a bare Host: exactly the well-formed PDUs arrive.',
+        'Trusted: the harness frame/fragment model; the virtual controller does not consume ISO data (the harness returns '
+        'ISO credits); ACL/ISO data lengths below 5 are not generated.',
+        'DESIGN.md 3/C05',
+    ),
+    'C07': (
+        'byte-stream equality per channel and direction + harness credit ledger rebuilt from the tapped L2CAP PDUs; generated spec pairs, CID plans and write/credit scripts',
+        'exploration',
+        'A: two real devices over LE with independently generated LeCreditBasedChannelSpec (MTU 23..65535, MPS 23..65533, '
+        'credits 1..65535), LE CoC (1..3 channels) or enhanced credit based (1..5 channels at once), generated '
+        'write/drain/sleep sequences with sizes around k*MPS and MTU of the receiver. B: one device against a RawPeer that '
+        'does the credit based signalling by hand with its own CIDs (same / reversed / crossing / scattered), MTU/MPS, '
+        'credit-return policy and credits granted right after the response, as initiator and as acceptor. Oracle: '
+        'concatenated sink deliveries == concatenated writes per channel and direction, K-frames <= peer MPS and SDU <= '
+        'peer MTU, never a K-frame without a credit (ledger from the signalling and credit PDUs the host saw), credits '
+        'returned so the sender is never starved, drain() completes, nothing stalls.',
+        'Trusted: the harness signalling parser and credit ledger; the raw peer is a conforming peer; SDU boundaries are '
+        'free (byte stream), write(b"") is outside the domain.',
+        'DESIGN.md 3/C07',
+    ),
+    'C10': (
+        'history invariant over the recorded bearer traffic; every opcode 0x00..0xFF swept x generated databases, MTUs and operation sequences, raw ATT client on the fixed and on enhanced bearers',
+        'exploration',
+        'A real Device with a generated GATT database (any property/permission mask, static and dynamic values 0..512 bytes '
+        'whose callbacks return or raise, sync or async, 16/128-bit UUIDs) and server MTU 23..517; a RawPeer on CID 4 or a '
+        'second device on 1..2 EATT channels sends hand-made ATT PDUs of every opcode (defined classes with adversarial '
+        'field values, truncated/padded variants, undefined opcodes) interleaved with notify/indicate calls and a '
+        'confirmation policy (on time, late, never, twice). Oracle over the recorded history: exactly one PDU per request '
+        '(matching response or Error Response naming it), nothing for commands/confirmations/non-requests, every '
+        'server-originated PDU <= the bearer ATT_MTU read from the wire, at most one indication awaiting confirmation per '
+        'bearer. The sweep enumerates all 256 opcodes on 3 fixed databases.',
+        'Trusted: the harness opcode tables (Core Vol 3 Part F 3.4.8) and the quiescence rule (35 virtual seconds of '
+        'silence, beyond the 30 s ATT timeout).',
+        'DESIGN.md 3/C10',
+    ),
+    'C11': (
+        'exhaustive permission matrix (256 masks x 3 security states x access paths x 2 bearers) against a rule model from the property text, in Hypothesis-generated database worlds',
+        'exploration',
+        'Target attribute (characteristic value, descriptor, service-typed group attribute) with every one of the 256 '
+        'permission masks x link plain/encrypted/authenticated x every reading/writing ATT operation and parameter form '
+        '(read, blob at offset 0 and k, read by type first/second, read by group type, read multiple (variable) alone/with, '
+        'find by type value equal/unequal, write request, write command) x fixed channel from a RawPeer / EATT from a '
+        'second device, plus the built-in declarations; the matrix is exhaustive in the thorough tier (run three times in '
+        'different generated worlds), a stratified third in the quick tier; plus generated programs of cells incl. two '
+        'requests in flight. Oracle: no disclosure (secret or any 4-byte substring in any PDU), no change, refused access '
+        'answered with an applicable error code, no over-blocking.',
+        'Trusted: the rule model; "readable/writable" accepts both readings when a requirement bit is set without the '
+        'plain bit (six shipped profiles rely on the lenient one); reads of attributes with no read bit at all are a '
+        'recorded known finding and excluded by construction (counted).',
+        'DESIGN.md 3/C11',
+    ),
+    'C12': (
+        'reference-tree comparison (harness walk over the attribute list) + wire sniffing of server-initiated PDUs + adversarial response scripts with structural non-termination detection',
+        'exploration',
+        'A: one real GATT server and 1..3 real client devices (0..2 EATT bearers each) over generated databases (1..6 '
+        'services, include edges, 0..5 characteristics, descriptors, 16/32/128-bit UUIDs mixed in a range, value lengths '
+        'around k*(MTU-1), MTU-3, 0, 512) and MTU preferences 23..517: discover_services/service/included/'
+        'characteristics/descriptors/attributes must reconstruct exactly the harness reference tree with handle ranges, '
+        'reads return the exact current value (long reads), writes take effect; generated subscription sets and '
+        'notify/indicate calls: exactly the subscribed bearers get exactly the requested PDU kind truncated to ATT_MTU-3, an '
+        'indication waits for its confirmation. B: a real client against a RawPeer playing an adversarial ATT server from '
+        'a generated response script: every discovery procedure returns or raises.',
+        'Trusted: the harness tree walk and ATT sniffer; non-termination = the same request re-issued after the same '
+        'answer, more requests than handles, or a stalled/expired virtual loop.',
+        'DESIGN.md 3/C12',
+    ),
+    'C17': (
+        'structure-aware mutation fuzzing (Hypothesis; atheris coverage-guided in the thorough tier) with an interpreter-event budget and a reference request per protocol as oracle',
+        'exploration',
+        'World level: a real victim Device (GATT server, SMP, LE signalling, LE CoC server; or SDP server, RFCOMM+HFP AG/HF, '
+        'AVDTP sink, AVRCP) receives sequences of 1..20 frames per target channel (ATT, SMP, LE/classic signalling, SDP, '
+        'RFCOMM, AT stream both roles, AVDTP, AVCTP, LE CoC, unknown CIDs) and raw HCI event/ACL/ISO packets: valid PDUs '
+        'built from the registries or captured from set-up traffic with 1..4 mutations (truncate, extend, bit flip, length '
+        'lies, SDP nesting to 1500, PB-flag permutations, AT lines split/unterminated/over-long/invalid UTF-8) or random '
+        'bytes. Each frame must be processed within 5 M interpreter events (sys.monitoring; >= 50x the dearest valid frame), '
+        'no RecursionError/MemoryError; afterwards a well-formed reference request per protocol must be answered correctly '
+        'unless a valid disconnect was sent. Parser level: 15 byte-level parsers/assemblers/AT readers, fresh objects per '
+        'input, same budget; atheris campaigns per parser in the thorough tier.',
+        'Trusted: the classification of "valid disconnect"; the event budget as the meaning of "promptly"; ordinary '
+        'exceptions are counted, never failures.',
+        'DESIGN.md 3/C17',
+    ),
 }
 
 NOT_YET = 'check not built yet in this session (planned in DESIGN.md section 3)'
